@@ -216,8 +216,10 @@ def main():
     build_ok = True
     build_msg = ""
     try:
-        binfo = common.build()
-        cov["build"] = {"make_s": binfo["make_s"], "translator": binfo["gen"]["out"].strip()}
+        runtime, targets = props.build_targets(pid)
+        binfo = common.build(targets, runtime)
+        cov["build"] = {"make_s": binfo["make_s"], "translator": binfo["gen"]["out"].strip(),
+                        "targets": targets or "all", "obligations": props.OBLIGATIONS.get(pid, [])}
     except common.BuildError as e:
         build_ok = False
         build_msg = str(e)
@@ -227,8 +229,10 @@ def main():
                                                          "closed": 0, "output": "build failed"}
     cov["theorems"] = th["theorems"]
     cov["axioms_reported"] = th["axioms"]
-    cov["obligations"] = max(1, len(th["theorems"]))
-    cov["discharged"] = len(th["theorems"]) if (th["ok"] and not bad_words) else 0
+    nobl = len(props.OBLIGATIONS.get(pid, []))
+    cov["obligations"] = max(1, len(th["theorems"]) + nobl)
+    cov["discharged"] = (len(th["theorems"]) + nobl) if (th["ok"] and not bad_words and build_ok) else 0
+    cov["source_table_obligations"] = ["coq/Gen/Obligations%s.v" % o for o in props.OBLIGATIONS.get(pid, [])]
     cov["checker_cmd"] = ("tools/gen_tables.py && make -C coq (coqc 8.16.1, full .vo build) && "
                           "coqc coq/Properties/%s.v (Print Assumptions)" % pid)
     cov["trusted_base"] = [
@@ -280,7 +284,21 @@ def main():
         os.chdir(cwd)
         shutil.rmtree(workdir, ignore_errors=True)
 
-    # ---- 4. proofs broken but no failing input found ---------------------------------------
+    # ---- 4. proofs broken: widen the search for a failing input ---------------------------------
+    if not proofs_ok and not rep.violations and not replay:
+        os.makedirs(workdir, exist_ok=True)
+        os.chdir(workdir)
+        try:
+            for extra in (1, 2):
+                stats["search_rounds_after_broken_proof"] += 1
+                KIND[cfg["kind"]]["slice"](pid, cfg, tier, seed + 7919 * extra, workdir, rep, stats, findings)
+                if rep.violations:
+                    break
+        except Exception:  # noqa: BLE001
+            cov["search_error"] = traceback.format_exc()[-1500:]
+        finally:
+            os.chdir(cwd)
+            shutil.rmtree(workdir, ignore_errors=True)
     if not proofs_ok and not rep.violations:
         rep.violation({"property": pid, "broken": "proof obligation / translator / audit",
                        "build_error": build_msg[-3000:], "print_assumptions": th.get("output", "")[-2000:],
